@@ -151,7 +151,7 @@ def _random_case(rng, u, pairs=FMT_PAIRS):
 
 
 def cases(rng, tier):
-    nuniv, per, maxn = (6, 8, 9) if tier == "quick" else (60, 16, 14)
+    nuniv, per, maxn = (6, 8, 9) if tier == "quick" else (40, 14, 14)
     for k in range(nuniv):
         u = C.gen_universe(rng, rng.randint(3, maxn), p_late=0.35, p_ghost=0.12)
         pairs = FMT_PAIRS if k % 2 == 0 else [("2a", "2a")] * 3 + [("pack-0.92", "2a"), ("2a", "pack-0.92")]
@@ -181,6 +181,8 @@ def impl(case):
 
 
 def impl_obs(case, obs):
+    if not isinstance(obs, dict):          # driver error
+        return obs
     return C.model_obs(case, obs)
 
 
@@ -212,6 +214,8 @@ def _walk_gap(case, obs):
 
 
 def oracle(case, obs):
+    if not isinstance(obs, dict):          # driver error: reported by the framework
+        return None
     g = case["u"]["g"]
     n = len(g)
     _, late = C.phase1_graph(case["u"])
@@ -277,6 +281,8 @@ def finding_matches(fid, case, obs, why):
 
 
 def nontrivial(case, obs):
+    if not isinstance(obs, dict):
+        return False
     st = obs["model"]["steps"]
     return bool(st) and st[0][0] == "ok" and st[0][1] > 0
 
